@@ -27,6 +27,11 @@ type sibOpts struct {
 	Self map[*types.Func]bool
 	// CalleeRename maps a variant's callee name to the base's.
 	CalleeRename map[string]string
+	// Guards: label every effect with the branch conditions (and polarities) that dominate it. For near-copy
+	// siblings: a negated test, a changed comparison operator or a dropped guard changes the labels.
+	Guards bool
+	// GuardSkip: conditions that are not part of the label (e.g. tests of a field the variant does not need).
+	GuardSkip func(cond ssa.Value) bool
 }
 
 type effSet map[string]bool
@@ -205,6 +210,9 @@ func summarize(fn *ssa.Function, o *sibOpts, depth int, rename map[string]string
 		if depth == o.Inline && rename == nil {
 			curCtx = paramContext(b, recvName)
 		}
+		if o.Guards {
+			curCtx += o.guardContext(b)
+		}
 		for _, in := range b.Instrs {
 			switch x := in.(type) {
 			case ssa.CallInstruction:
@@ -351,12 +359,118 @@ func summarize(fn *ssa.Function, o *sibOpts, depth int, rename map[string]string
 						add("ret-errcode " + code.ExactString())
 					}
 				}
+				if o.Guards {
+					var ds []string
+					for _, r := range retResults(x) {
+						ds = append(ds, o.valDesc(r))
+					}
+					add("return " + strings.Join(ds, ", "))
+				}
 			case *ssa.Panic:
 				add("panic")
 			}
 		}
 	}
 	return out
+}
+
+// guardContext: the canonical descriptions of the branch conditions that dominate block b, with polarity.
+func (o *sibOpts) guardContext(b *ssa.BasicBlock) string {
+	var gs []string
+	for d := b; d != nil && d.Idom() != nil; d = d.Idom() {
+		id := d.Idom()
+		if len(id.Instrs) == 0 {
+			continue
+		}
+		// the edge id→d decides entry into d when every other predecessor of d is a back edge (dominated by d)
+		fromIdom, others := 0, true
+		for _, p := range d.Preds {
+			if p == id {
+				fromIdom++
+			} else if !d.Dominates(p) {
+				others = false
+			}
+		}
+		if fromIdom != 1 || !others {
+			continue
+		}
+		ifi, ok := id.Instrs[len(id.Instrs)-1].(*ssa.If)
+		if !ok || len(id.Succs) != 2 || id.Succs[0] == id.Succs[1] {
+			continue
+		}
+		cond, pol := ifi.Cond, id.Succs[0] == d
+		for {
+			u, ok := cond.(*ssa.UnOp)
+			if !ok || u.Op != token.NOT {
+				break
+			}
+			cond, pol = u.X, !pol
+		}
+		if o.GuardSkip != nil && o.GuardSkip(cond) {
+			continue
+		}
+		desc := ""
+		if bo, ok := cond.(*ssa.BinOp); ok && isCmp(bo.Op) {
+			x, y, op := o.valDesc(bo.X), o.valDesc(bo.Y), bo.Op
+			// canonical operand order and operator: only ==, <, <= remain
+			switch op {
+			case token.NEQ:
+				op, pol = token.EQL, !pol
+			case token.GEQ:
+				op, pol = token.LSS, !pol
+			case token.GTR:
+				op, pol = token.LEQ, !pol
+			}
+			if op == token.EQL && x > y {
+				x, y = y, x
+			}
+			desc = "(" + x + " " + op.String() + " " + y + ")"
+		} else {
+			desc = "(" + o.valDesc(cond) + ")"
+		}
+		if pol {
+			gs = append(gs, desc+"=T")
+		} else {
+			gs = append(gs, desc+"=F")
+		}
+	}
+	if len(gs) == 0 {
+		return ""
+	}
+	sort.Strings(gs)
+	return "[" + strings.Join(gs, " ") + "] "
+}
+
+// stripLabels removes every leading [context] label of an effect string.
+func stripLabels(e string) string {
+	for strings.HasPrefix(e, "[") {
+		n := stripGuard(e)
+		if n == e {
+			break
+		}
+		e = n
+	}
+	return e
+}
+
+// stripGuard removes the first leading [label] of an effect string.
+func stripGuard(e string) string {
+	if strings.HasPrefix(e, "[") {
+		// the label ends at the first "] " that closes the outermost bracket
+		depth := 0
+		for i, r := range e {
+			switch r {
+			case '[':
+				depth++
+			case ']':
+				depth--
+				if depth == 0 {
+					return strings.TrimPrefix(e[i+1:], " ")
+				}
+			}
+		}
+	}
+	return e
 }
 
 func sameReceiverFamily(a, b *ssa.Function) bool {
@@ -433,9 +547,9 @@ func allowedByPrefix(e string, tbl map[string]string) bool {
 	if _, ok := tbl["*"]; ok {
 		return true
 	}
-	// allow tables are written without the parameter context
-	if i := strings.Index(e, "] "); strings.HasPrefix(e, "[") && i > 0 {
-		e = e[i+2:]
+	// allow tables are written without the parameter / guard context
+	if strings.HasPrefix(e, "[") {
+		e = stripLabels(e)
 		if _, ok := tbl[e]; ok {
 			return true
 		}
@@ -467,9 +581,7 @@ func prunedEdge(o *sibOpts, from, to *ssa.BasicBlock) bool {
 
 // qlogOnly: effects that only feed qlog events (the design compares modulo these).
 func qlogOnly(e string) bool {
-	if i := strings.Index(e, "] "); strings.HasPrefix(e, "[") && i > 0 {
-		e = e[i+2:]
-	}
+	e = stripLabels(e)
 	for _, p := range []string{"new qlog.", "call iface qlogwriter.Recorder.", "call handshake.encLevelToKeyType", "argconst handshake.encLevelToKeyType", "call quic.Conn.qlog", "call iface qlogwriter.Trace.", "call quic.startedConnectionEvent"} {
 		if strings.HasPrefix(e, p) {
 			return true
